@@ -110,6 +110,9 @@ func c17NestedOne(c *core.Ctx, dir string, k c17NestedCase) {
 }
 
 func c17NestedRun(c *core.Ctx) {
+	if c17SkipFamily("nested") {
+		return
+	}
 	dir := core.Scratch("c17nested")
 	maxRows := 3
 	if c.Thorough() {
